@@ -694,6 +694,18 @@ def _from_numpy(fr, x):
     return t
 
 
+def merge_leading(V):
+    """(n, K, rest...) -> (n*K, rest...) keeping the factorisation of dim 0 for later reshapes"""
+    n, K = V.shape[0], V.shape[1]
+    s = V.snapshot()
+
+    def content(r, *rest):
+        return s(O.floordiv(r, K), O.mod(r, K), *rest)
+    t = Tn.fresh([O.simp(O.mul(n, K))] + list(V.shape[2:]), content, V.kind, lib=V.lib)
+    t.factored = {0: ([n, K], s)}
+    return t
+
+
 @lib('torch.cat', 'numpy.concatenate', 'torch.concatenate', 'torch.concat')
 def _cat(fr, ts, dim=0, axis=None, **kw):
     ctx = fr.ctx
@@ -707,7 +719,16 @@ def _cat(fr, ts, dim=0, axis=None, **kw):
             raise Unsupported("cat of abstract list along dim != 0")
         return ts.views[0]
     if isinstance(ts, StackList):
-        raise Unsupported("cat of a stack-abstracted list")
+        # uniform items: cat along dim 0 merges (count, rows-per-item); the factorisation is kept
+        if ts.tuple_kind is not None:
+            raise SymRaise('TypeError')
+        ctx.may_raise(ts.count <= 0, 'RuntimeError')
+        if norm_dim(dim, ts.views[0].rank - 1) != 0:
+            raise Unsupported("cat of uniform abstract list along dim != 0")
+        V = ts.views[0]
+        if V.rank < 2:
+            raise SymRaise('RuntimeError')
+        return merge_leading(V)
     ts = list(ts)
     if len(ts) == 0:
         raise SymRaise('RuntimeError')
@@ -947,6 +968,11 @@ def _m_reshape(fr, x, *shape):
     dimensions, then the middle must be a pure merge (several -> one) or a pure split (one ->
     several); only multiplication, or div/mod by a single symbolic size, is ever generated."""
     ctx = fr.ctx
+    fac = getattr(x, 'factored', None)
+    if fac and 0 in fac and x.rank >= 1:
+        factors, acc = fac[0]
+        rest_shape = list(x.shape[1:])
+        x = Tn.fresh(list(factors) + rest_shape, acc, x.kind, lib=x.lib, dtype=x.dtype)
     new = [unwrap_scalar(s) for s in shape_args(shape)]
     old = list(x.shape)
     neg = [j for j, s in enumerate(new) if O.is_conc(s) and O.conc_int(s) == -1]
@@ -1030,7 +1056,9 @@ def _m_reshape(fr, x, *shape):
         def content(*idx):
             k = idx[lo]
             for q in range(1, nmid):
-                k = O.mul(k, mn[q]) + idx[lo + q]
+                k2 = O.mul(k, mn[q]) + idx[lo + q]
+                O.register_qr(k2, k, mn[q], idx[lo + q])
+                k = k2
             return s(*(list(idx[:lo]) + [k] + list(idx[lo + nmid:])))
         return Tn.fresh(new_full, content, x.kind, lib=x.lib, dtype=x.dtype)
     # general fallback: merge then split (division by single sizes, multiplication on the way up)
@@ -1325,7 +1353,68 @@ def _enumerate(fr, it, start=0):
     seq = fr.as_sequence(it)
     if isinstance(seq, list):
         return [(start + i, x) for i, x in enumerate(seq)]
-    return Iter(seq.count, lambda i: (start + i, seq.item(i)), seq.ghost)
+    return Iter(seq.count, lambda i: (start + i, seq.item(i)), seq.ghost, has=seq.has, done=seq.done)
+
+
+@lib('itertools.product')
+def _product(fr, *its):
+    """lexicographic nest.  With symbolic factors the flat counter is related to the ghost
+    counters in division-free polynomial form: it == (g0*n1 + g1)*n2 + g2 (DESIGN 2.2.4)."""
+    seqs = [fr.as_sequence(x) for x in its]
+    if all(isinstance(s_, list) for s_ in seqs):
+        return [tuple(x) for x in itertools.product(*seqs)]
+    its2 = []
+    for s_ in seqs:
+        if isinstance(s_, list):
+            items = list(s_)
+            if not all(is_scalar(x) for x in items):
+                raise Unsupported("product over a concrete list of non-scalars mixed with symbolic factors")
+
+            def item(i, items=items):
+                out = items[-1]
+                for q in range(len(items) - 2, -1, -1):
+                    out = ite(O.eq(i, q), items[q], out)
+                return out
+            its2.append(Iter(len(items), item))
+        else:
+            if s_.ghost is not None or s_.has is not None:
+                raise Unsupported("product over a ghosted iterator")
+            its2.append(s_)
+    counts = [x.count for x in its2]
+    total = prod(counts)
+    store = {}
+
+    def ghosts(it):
+        key = str(it)
+        if key not in store:
+            store[key] = [O.fresh_int('g%d' % q) for q in range(len(its2))]
+        return store[key]
+
+    def ghost(it):
+        gs = ghosts(it)
+        flat = gs[0]
+        for q in range(1, len(gs)):
+            flat = O.mul(flat, counts[q]) + gs[q]
+        facts = [And(*[And(0 <= g, g < c) for g, c in zip(gs, counts)]), O.eq(it, flat)]
+        # instances of the lemma schema divmod_unique (lean/Lemmas.lean): e*n + j with 0 <= j < n
+        # has quotient e and remainder j.  Stated here so the solver need not rediscover them.
+        rest = it
+        for q in range(len(gs) - 1, 0, -1):
+            facts.append(O.eq(O.mod(rest, counts[q]), gs[q]))
+            rest = O.floordiv(rest, counts[q])
+            pref = gs[0]
+            for q2 in range(1, q):
+                pref = O.mul(pref, counts[q2]) + gs[q2]
+            facts.append(O.eq(rest, pref))
+        fr.ctx.trusted.add('lemma:divmod_unique (lean/Lemmas.lean)')
+        return facts
+
+    def item(it):
+        gs = ghosts(it)
+        return tuple(x.item(g) for x, g in zip(its2, gs))
+    r = Iter(total, item, ghost=ghost, has=lambda it: True, done=lambda it: O.eq(it, total))
+    r.ghosts = ghosts
+    return r
 
 
 @lib('builtins.zip')
